@@ -14,6 +14,8 @@ func init() {
 			return &ospad.Adapter{Prop: o.attr("map", "C09"), PropErr: o.attr("err", "C05")}
 		case "oserr":
 			return &ospad.OSAdapter{Prop: o.attr("map", "C09"), PropErr: o.attr("err", "C05")}
+		case "oserr0":
+			return &ospad.OSAdapter{Prop: o.attr("map", "C09"), PropErr: o.attr("err", "C05"), Unrooted: true}
 		}
 		fatal("unknown ospath adapter", kind)
 		return nil
